@@ -9,7 +9,7 @@ git -C /repo worktree add -q --detach "$wt" HEAD || exit 2
 trap 'git -C /repo worktree remove --force "$wt" 2>/dev/null; rm -rf "$wt"' EXIT
 git -C "$wt" apply /verif/seeded/$name/patch.diff || { echo "patch does not apply"; exit 2; }
 for p in "$@"; do
-  out=$(cd /verif && VERIF_REPO="$wt" timeout 2400 bin/vcheck $p --tier ${TIER:-quick} 2>&1); rc=$?
+  out=$(cd ${VROOT:-/verif} && VERIF_REPO="$wt" timeout 2400 bin/vcheck $p --tier ${TIER:-quick} 2>&1); rc=$?
   echo "$out" | grep -E "VIOLATION|signature|BROKEN|KNOWN|^\[C" | cut -c1-240
   echo "RESULT $name $p rc=$rc"
 done
